@@ -224,7 +224,7 @@ func genCase(t *rapid.T) Case {
 	return c
 }
 
-var prop = &ev.Prop[Case]{Sub: "identity", Quick: 30000, Thorough: 2000000, Gen: genCase, Check: check}
+var prop = &ev.Prop[Case]{Sub: "identity", Quick: 200000, Thorough: 2000000, Gen: genCase, Check: check}
 
 func TestRegress(t *testing.T) { prop.Regress(t) }
 func TestReplay(t *testing.T)  { prop.Replay(t) }
